@@ -173,9 +173,20 @@ def _balanced(s):
 def _find_top(s, needle):
     d = 0
     i = 0
+    instr = False
     while i < len(s):
         c = s[i]
-        if c in "([{<":
+        if instr:
+            if c == "\\":
+                i += 2
+                continue
+            if c == '"':
+                instr = False
+            i += 1
+            continue
+        if c == '"':
+            instr = True
+        elif c in "([{<":
             d += 1
         elif c in ")]}":
             d -= 1
@@ -373,10 +384,12 @@ def parse_terminator(text):
             return ("other", t)
         callee = left[:open_idx].strip()
         argtext = left[open_idx + 1:-1]
-        try:
-            args = [parse_operand(a) for a in split_top(argtext)] if argtext.strip() else []
-        except ValueError:
-            args = [("const", a, None) for a in split_top(argtext)]
+        args = []
+        for a_ in (split_top(argtext) if argtext.strip() else []):
+            try:
+                args.append(parse_operand(a_))
+            except ValueError:
+                args.append(("const", a_.strip(), None))  # e.g. a function item passed by name
         return ("call", dest, callee, args, tg.get("return"))
     return ("other", t)
 
